@@ -135,10 +135,19 @@ def history(ctx, rng, s, op):
     gbase1 = (q[0] == 'err' and q[1] == 9)
     q = s.ev('RND')
     grnd = (q[0] == 'ok' and abs(q[1] - FIRST_RND[0]) < 1e-9)
+    # last probe: after one more CLEAR an explicit OPTION BASE 1 must survive the ERASE of the only array (only a base that DIM
+    # set implicitly is dropped with the last array); the probes above dimensioned arrays implicitly, so a reset that forgets
+    # to re-arm that distinction shows here (round-3 seeded change C23c)
+    s.ex('CLEAR')
+    s.ex('OPTION BASE 1')
+    s.ex('DIM PB9(3)')
+    s.ex('ERASE PB9')
+    q = s.ex('PC9(0)=1')
+    gflag = (q[0] == 'err' and q[1] == 9)
     ev = {'op': op, 'commons': commons,
           'set': {'vars': [{'name': v['name'] + ('()' if v['kind'] in ('arr', 'sarr') else ''), 'kind': v['kind'], 'val': v['val']} for v in vars_],
                   'fn': fn, 'defint': defint, 'base1': base1, 'rnd': rnd},
-          'got': {'vars': got, 'fn': gfn, 'defint': gdefint, 'base1': gbase1, 'rnd': grnd, 'dimok': dimok}}
+          'got': {'vars': got, 'fn': gfn, 'defint': gdefint, 'base1': gbase1, 'rnd': grnd, 'dimok': dimok, 'baseflag': gflag}}
     return ev, prog
 
 
